@@ -477,6 +477,18 @@ func (b *Builder) Mod(x, m *Term) *Term {
 		if am.Cmp(big1) == 0 {
 			return b.Int64(0)
 		}
+		// canonical form of "byte k of x": (x div 256^k) mod 256
+		if am.Cmp(big256) == 0 {
+			if x.Op == ODiv && x.Args[1].IsConst() {
+				d := x.Args[1].I
+				if d.Sign() > 0 && d.BitLen()%8 == 1 && new(big.Int).And(d, new(big.Int).Sub(d, big1)).Sign() == 0 {
+					return b.Byte(x.Args[0], (d.BitLen()-1)/8)
+				}
+			}
+			if x.Op != OByte {
+				return b.Byte(x, 0)
+			}
+		}
 		hi := new(big.Int).Sub(am, big1)
 		if x.Lo != nil && x.Hi != nil {
 			ql, rl := eucDivMod(x.Lo, am)
@@ -524,6 +536,18 @@ func (b *Builder) Byte(x *Term, k int) *Term {
 		_, r := eucDivMod(q, big256)
 		return b.Int(r)
 	}
+	if x.Op == OByte {
+		if k == 0 {
+			return x
+		}
+		return b.Int64(0)
+	}
+	if x.Op == ODiv && x.Args[1].IsConst() {
+		d := x.Args[1].I
+		if d.Sign() > 0 && d.BitLen()%8 == 1 && new(big.Int).And(d, new(big.Int).Sub(d, big1)).Sign() == 0 {
+			return b.Byte(x.Args[0], k+(d.BitLen()-1)/8)
+		}
+	}
 	if x.Op == OFromBytes {
 		if k < len(x.Args) {
 			return x.Args[k]
@@ -534,6 +558,15 @@ func (b *Builder) Byte(x *Term, k int) *Term {
 		// sign extension byte: 255 if top byte >= 128
 		top := x.Args[len(x.Args)-1]
 		return b.Ite(b.Le(b.Int64(128), top), b.Int64(255), b.Int64(0))
+	}
+	if x.Lo != nil && x.Hi != nil {
+		// the whole interval shares byte k
+		ql, _ := eucDivMod(x.Lo, pow256(k))
+		qh, _ := eucDivMod(x.Hi, pow256(k))
+		if ql.Cmp(qh) == 0 {
+			_, r := eucDivMod(ql, big256)
+			return b.Int(r)
+		}
 	}
 	if x.Lo != nil && x.Hi != nil && x.Lo.Sign() >= 0 {
 		p := pow256(k)
@@ -568,18 +601,21 @@ func (b *Builder) FromBytes(bs []*Term, signed bool) *Term {
 		}
 		return b.Int(v)
 	}
-	// pattern: all bytes are Byte(t, i) of the same t
-	if bs[0].Op == OByte && bs[0].Aux == 0 {
-		t := bs[0].Args[0]
-		ok := true
-		for i := 1; i < n; i++ {
-			if !(bs[i].Op == OByte && bs[i].Aux == i && bs[i].Args[0] == t) {
-				ok = false
-				break
+	// pattern: every byte equals Byte(t, i) of one term t (constant-folded bytes included)
+	for i0 := 0; i0 < n; i0++ {
+		if bs[i0].Op == OByte && bs[i0].Aux == i0 {
+			t := bs[i0].Args[0]
+			ok := true
+			for i := 0; i < n; i++ {
+				if b.Byte(t, i) != bs[i] {
+					ok = false
+					break
+				}
 			}
-		}
-		if ok {
-			return b.Wrap(t, signed, 8*n)
+			if ok {
+				return b.Wrap(t, signed, 8*n)
+			}
+			break
 		}
 	}
 	// pattern: bytes of a FromBytes of same width already handled by Byte(); high zero bytes
